@@ -172,6 +172,63 @@ def wire_case(item):
     return part
 
 
+LATE_TABLES = {
+    "privf-unreadable": [("/priv/f", False, True)],
+    "privf-readonly": [("/priv/f", True, False)],
+    "pub-ro": [("/pub", True, False)],
+    "priv-none-but-listed": [("/priv/f", False, False), ("/priv/sub", False, False)],
+}
+
+
+def late_case(item):
+    """the transfer verb arrives before the data connection; the session changes its working directory while the server
+    waits; the transfer must be authorised *and carried out* on the location addressed when the verb arrived"""
+    tname, verb, cwd1, cwd2, arg = item
+    from vf.conform import step_late
+    part = report.Partial()
+    users = [M.UserSpec(None, perms=LATE_TABLES[tname])]
+    conf = Conf(users, TREE)
+    rig = conf.new_rig()
+    model = conf.new_model()
+    try:
+        rig.ev(0, "@connect")
+        hist = ["USER anonymous", "EPSV", "CWD " + cwd1]
+        problems = []
+        for line in hist:
+            pr, obs = conf_step(rig, model, line, conf)
+            problems += pr
+        if not problems:
+            pr, obs = step_late(rig, model, f"{verb} {arg}", "CWD " + cwd2, conf)
+            problems += pr
+        if not problems:
+            pr, obs = conf_step(rig, model, "PWD", conf)
+            problems += pr
+        part.evaluations += 1
+        part.traces += 1
+        part.transitions += len(hist) + 3
+        k = report.fp(["late", tname, verb, cwd1, cwd2, arg])
+        part.states.add(k)
+        part.nontrivial.add(k)
+        part.sample({"table": tname, "history": hist + [f"{verb} {arg}  (no data connection yet)", "CWD " + cwd2, "@data"]}, limit=1)
+        for p in problems[:1]:
+            part.violation({"kind": p["kind"], "verb": verb, "table": tname, "late_data": True},
+                           {"problem": p, "cwd1": cwd1, "cwd2": cwd2, "arg": arg}, replay={"late": list(item)})
+    finally:
+        rig.close()
+    return part
+
+
+def late_items():
+    items = []
+    for tname in LATE_TABLES:
+        for verb in ("RETR", "STOR", "APPE", "LIST", "MLSD"):
+            for cwd1, cwd2 in (("/pub", "/priv"), ("/priv", "/pub"), ("/pub/sub", "/priv/sub"), ("/priv/sub", "/"),
+                               ("/", "/priv")):
+                for arg in (("f", "g", "../f", "new") if verb in ("RETR", "STOR", "APPE") else ("", ".", "sub")):
+                    items.append((tname, verb, cwd1, cwd2, arg))
+    return items
+
+
 def wire_items(tier):
     items = []
     for tname in WTABLES:
@@ -188,12 +245,16 @@ def wire_items(tier):
 
 
 def run(tier, seed, t0):
-    parts = report.pmap(func_work, func_items(tier)) + report.pmap(wire_case, wire_items(tier))
+    parts = report.pmap(func_work, func_items(tier)) + report.pmap(wire_case, wire_items(tier)) + \
+        report.pmap(late_case, late_items())
     part = report.merge_all(parts)
     bounds = {"function": {"entries": len(ENTRIES), "tables": "all ordered tables of <= 3 entries (with duplicates) over 6 paths x 4 flag combinations",
                            "queries": "all paths of depth <= %d over {a,b,c}" % (3 if tier == "quick" else 4)},
               "wire": {"tables": list(WTABLES), "verbs": VERBS, "targets": TARGETS, "cwds": CWDS,
-                       "alias_spellings": 8}}
+                       "alias_spellings": 8},
+              "late_data": {"tables": list(LATE_TABLES), "verbs": ["RETR", "STOR", "APPE", "LIST", "MLSD"],
+                            "what": "verb before the data connection, CWD to a differently-permitted directory while "
+                                    "the server waits, then the data connection"}}
     return report.finish(
         PID, tier, seed, "model_checking", part, t0,
         rule="function level: exhaustive (table, query) enumeration against a longest-prefix oracle; wire level: every "
@@ -207,7 +268,9 @@ def run(tier, seed, t0):
 def replay(path):
     data = json.loads(open(path).read())
     rp = data["replay"]
-    if rp.get("func"):
+    if rp.get("late"):
+        part = late_case(tuple(rp["late"]))
+    elif rp.get("func"):
         part = func_work(([tuple(tuple(e) for e in rp["table"])], [rp["query"]]))
     else:
         part = wire_case(tuple(rp["wire"]))
